@@ -391,6 +391,12 @@ def gen_nonstruct_access_program(rng):
     attr = rng.choice(["a", "foo", "k"])
     path = ["v", attr] if rng.random() < 0.7 else ["v", attr, "k"]
     structs = [{"name": "S", "attrs": [["a", "number"], ["k", "number"]]}]
+    if rng.random() < 0.3:
+        # the root is a struct, but an attribute on the way is an array and is followed by a further attribute
+        # without an index (`order.items.weight` for `items: Item[]`)
+        structs.append({"name": "T", "attrs": [["items", rng.choice(["S[]", "S[3]"])], ["nums", "number[]"], ["k", "number"]]})
+        vty = "T"
+        path = rng.choice([["v", "items", "a"], ["v", "nums", "foo"], ["v", "items", "a", "k"], ["v", "nums", "k"]])
     use = rng.choice(["svc_in", "cond", "limit", "call_in", "wloop", "cond_bool"])
     callee = {"name": "other", "ins": [["x", "number"]], "outs": [], "body": [{"k": "svc", "name": "Use", "ins": ["x"], "outs": []}]}
     if use == "svc_in":
@@ -646,6 +652,43 @@ def job_faults(args):
             out.append({"cls": "illegal_character", "whole_file": False, "prog": wp, "text": t2,
                         "span": [inner["line"], inner["end_line"]], "res": r, "ext": rx, "nlines": t2.count("\n") + 1,
                         "where": "%r %s %d" % (ch, where, node["line"])})
+        # a struct literal the lexer accepts but json.loads rejects (an escape that is none, a broken unicode escape, a
+        # raw tab inside a string): reported within the statement, no line outside the file
+        for _ in range(1 if k >= 0 else 0):
+            wp = copy.deepcopy(prog)
+            text = vgen.print_program(wp, random_layout(rng) if rng.random() < 0.5 else None)
+            text = with_leading_lines(rng, wp, text)
+            nl = "\r\n" if "\r\n" in text else "\n"
+            lines = text.split(nl)
+            cand = [i for i, l in enumerate(lines) if "{" in l and "#" not in l[: l.index("{")]]
+            nodes = []
+
+            def walk2(n):
+                if isinstance(n, dict):
+                    if "line" in n and "end_line" in n and ("k" in n or "body" in n):
+                        nodes.append(n)
+                    for v in n.values():
+                        walk2(v)
+                elif isinstance(n, list):
+                    for v in n:
+                        walk2(v)
+            walk2(wp)
+            if not cand or not nodes:
+                continue
+            li = rng.choice(cand)
+            enc = [n for n in nodes if n["line"] <= li + 1 <= n["end_line"]]
+            if not enc:
+                continue
+            inner = min(enc, key=lambda n: n["end_line"] - n["line"])
+            pos = lines[li].index("{")
+            bad = rng.choice(['"zq": "x\\q", ', '"zq": "\\u12", ', '"zq": "a\tb", '])
+            lines[li] = lines[li][: pos + 1] + bad + lines[li][pos + 1:]
+            t2 = nl.join(lines)
+            r = run_validator(t2)
+            rx = run_validator(t2, extension=True)
+            out.append({"cls": "literal_not_json", "whole_file": False, "prog": wp, "text": t2,
+                        "span": [inner["line"], inner["end_line"]], "res": r, "ext": rx, "nlines": t2.count("\n") + 1,
+                        "where": "line %d" % (li + 1)})
         signal.alarm(0)
         return {"seed": seed, "faults": out}
     except CaseTimeout:
@@ -1347,7 +1390,8 @@ def _run(ctx, pool, res):
                         add_violation(res, seen, "C19", "formats_disagree", "console format reports lines %r, extension format %r %s" % (sorted(lines), xl, rx["leftover"][:80]), f["text"])
             if (rv["valid"] is True) != (rv["out"] == ""):
                 add_violation(res, seen, "C16", "verdict_vs_output", "verdict %r but output %r" % (rv["valid"], rv["out"][:200]), f["text"])
-            if not any(e["kind"] == "syntax_or_other" for e in rv["errs"]):
+            if not any(e["kind"] == "syntax_or_other" for e in rv["errs"]) and f["cls"] != "literal_not_json":
+                # (a literal that is no JSON is a fault of the text, not of the AST the model is given)
                 model_reqs.append(("fault:" + f["cls"], f["prog"], rv, f["text"]))
     # texts -------------------------------------------------------------------------------------------
     text_kinds = {}
